@@ -228,7 +228,11 @@ fn mon_take(mon: &Mon, port: u16) -> Vec<String> {
             g.by_port.entry(p.port()).or_default().push(k.to_string());
         }
     }
-    g.by_port.remove(&port).unwrap_or_default()
+    // An ephemeral port may have been used before (the readiness probes of start(), an earlier connection):
+    // every connection's events begin with its one ConnectionSuccess, so the list of THIS connection is the
+    // suffix that starts at the last "CS".
+    let all = g.by_port.remove(&port).unwrap_or_default();
+    match all.iter().rposition(|k| k == "CS") { Some(i) => all[i..].to_vec(), None => all }
 }
 
 pub struct Job { pub id: i64, pub timeout: bool, pub script: Vec<Value>, pub plan: String, pub sends: Vec<usize>, pub expected_n: usize, pub final_open: bool }
